@@ -53,6 +53,76 @@ theorem nRun_removeOwner_clears (T : Tbl) (src n : Nat) : Tbl.getD (nRun T [.rem
   show Tbl.getD (Tbl.removeOwner T src) (src, n) = []
   rw [Tbl.getD_removeOwner]; simp
 
+/-! ### who can take a listener out of an entry -/
+
+/-- the operations that can remove `c` from the entry `(t, n)` -/
+def Releases (op : NOp) (c t n : Nat) : Prop :=
+  op = .notify t n ∨ (∃ al list, op = .purge al c n list) ∨ (∃ al keys, op = .multiPurge al c keys) ∨
+    op = .removeOwner t
+
+theorem NOp.apply_keeps (T : Tbl) (op : NOp) (c t n : Nat) (h : c ∈ Tbl.getD T (t, n)) :
+    c ∈ Tbl.getD (NOp.apply T op) (t, n) ∨ Releases op c t n := by
+  cases op with
+  | reg o m x =>
+    left
+    simp only [NOp.apply, Tbl.getD_push]
+    split
+    · rename_i hk
+      have hk' : (t, n) = (o, m) := hk
+      rw [← hk']
+      exact List.mem_append_left _ h
+    · exact h
+  | notify src name =>
+    simp only [NOp.apply, Tbl.getD_removeKey]
+    split
+    · rename_i hk
+      right; left
+      have : t = src ∧ n = name := by simpa using hk
+      rw [this.1, this.2]
+    · exact Or.inl h
+  | purge al w name list =>
+    simp only [NOp.apply, Tbl.purge_getD]
+    split
+    · rename_i hc
+      by_cases hw : w = c
+      · right; right; left
+        subst hw
+        have hn : n = name := hc.1
+        exact ⟨al, list, by rw [hn]⟩
+      · left
+        exact List.mem_filter.2 ⟨h, by simpa using fun e => hw e.symm⟩
+    · exact Or.inl h
+  | multiPurge al w keys =>
+    simp only [NOp.apply, Tbl.multiPurge_getD]
+    split
+    · by_cases hw : w = c
+      · right; right; right; left
+        subst hw
+        exact ⟨al, keys, rfl⟩
+      · left
+        exact List.mem_filter.2 ⟨h, by simpa using fun e => hw e.symm⟩
+    · exact Or.inl h
+  | removeOwner src =>
+    simp only [NOp.apply, Tbl.getD_removeOwner]
+    split
+    · rename_i hk
+      right; right; right; right
+      have : t = src := hk
+      rw [this]
+    · exact Or.inl h
+
+/-- **a listener leaves an entry only through `Unregister(name)` on the source, the source's `UnregisterAll`, or its own
+    `CancelWaiting`** — in every history -/
+theorem nRun_keeps : ∀ (ops : List NOp) (T : Tbl) (c t n : Nat), c ∈ Tbl.getD T (t, n) →
+    c ∈ Tbl.getD (nRun T ops) (t, n) ∨ ∃ op ∈ ops, Releases op c t n
+  | [], _, _, _, _, h => Or.inl h
+  | op :: ops, T, c, t, n, h => by
+    rcases NOp.apply_keeps T op c t n h with h1 | h1
+    · rcases nRun_keeps ops _ c t n h1 with h2 | ⟨o, ho, hr⟩
+      · exact Or.inl h2
+      · exact Or.inr ⟨o, List.mem_cons_of_mem _ ho, hr⟩
+    · exact Or.inr ⟨op, List.mem_cons_self, h1⟩
+
 /-! ### `NN` for the host operations -/
 
 theorem NN.same {s s' : State} (h : s'.notify = s.notify) : NN s s' := ⟨[], h.symm⟩
